@@ -1,6 +1,10 @@
 use crate::framework::Prop;
+pub mod c03;
+pub mod c12;
+pub mod c14;
 pub mod c15;
+pub mod proof;
 
 pub fn all() -> Vec<Box<dyn Prop>> {
-    vec![Box::new(c15::C15)]
+    vec![Box::new(proof::C01), Box::new(proof::C02), Box::new(c03::C03), Box::new(c12::C12), Box::new(c14::C14), Box::new(c15::C15)]
 }
